@@ -32,6 +32,8 @@ Fixpoint pp_q (en : env) (props : list string) (ind : nat) (q : prog2) : string 
     indent ind ++ "repeat with " ++ var_name en v ++ " = " ++ cond_text en lo ++ (if down then " down to " else " to ") ++ cond_text en hi ++ "
 " ++ pp_q en props (S ind) a ++ indent ind ++ "end repeat
 " ++ pp_q en props ind r
+  | QExit _ r => indent ind ++ "exit repeat
+" ++ pp_q en props ind r
   end.
 
 Fixpoint text_ok_q (en : env) (props : list string) (q : prog2) : Prop :=
@@ -42,16 +44,17 @@ Fixpoint text_ok_q (en : env) (props : list string) (q : prog2) : Prop :=
   | QIfE c a eb r => text_ok en c /\ eb <> QNil /\ text_ok_q en props a /\ text_ok_q en props eb /\ text_ok_q en props r
   | QWhile c a r => text_ok en c /\ text_ok_q en props a /\ text_ok_q en props r
   | QFor _ _ lo hi a r => text_ok en lo /\ text_ok en hi /\ text_ok_q en props a /\ text_ok_q en props r
+  | QExit _ r => text_ok_q en props r
   end.
 
 Lemma final_ne en props pc q : q <> QNil -> final_k false en props pc q <> [].
-Proof. destruct q; [congruence | discriminate | discriminate | discriminate | discriminate | discriminate]. Qed.
+Proof. destruct q; [congruence | discriminate..]. Qed.
 
 Theorem for_text en props : forall q, text_ok_q en props q -> forall pc ind,
   text_of (final en props pc q) ind = pp_q en props ind q.
 Proof.
   unfold final, text_of.
-  induction q as [|s r IH|c a IHa r IHr|c a IHa eb IHe r IHr|c a IHa r IHr|down v lo hi a IHa r IHr]; intros Hok pc ind.
+  induction q as [|s r IH|c a IHa r IHr|c a IHa eb IHe r IHr|c a IHa r IHr|down v lo hi a IHa r IHr|xoff r IH]; intros Hok pc ind.
   - reflexivity.
   - destruct Hok as [Hs Hr]. cbn [final_k map concat_all pp_q]. rewrite (stmt_line en props s Hs pc ind), (IH Hr).
     repeat rewrite sappend_assoc. reflexivity.
@@ -87,6 +90,8 @@ Proof.
     match goal with |- context [map (fun st => gen_lingo_sp false st ind) (final_k false en props ?x r)] =>
       pose proof (IHr Hr x ind) as Er end. unfold gen_lingo in Er. rewrite Er.
     unfold cond_text, var_name. destruct down; cbn [String.eqb]; repeat rewrite sappend_assoc; reflexivity.
+  - cbn [final_k map concat_all pp_q text_ok_q] in *. rewrite (IH Hok). unfold gen_lingo. cbn [gen_lingo_sp].
+    repeat rewrite sappend_assoc. reflexivity.
 Qed.
 Print Assumptions for_text.
 
@@ -110,6 +115,7 @@ Fixpoint pp_js_q (fm : bool) (en : env) (props : list string) (ind : nat) (q : p
     strip_ends (js_cond fm en (for_cond down v hi)) ++ "; " ++ var_name en v ++ (if down then "--" else "++") ++ ") {
 " ++ pp_js_q fm en props (S ind) a ++ indent ind ++ "}
 " ++ pp_js_q fm en props ind r
+  | QExit _ r => js_line ind "break" ++ pp_js_q fm en props ind r
   end.
 
 Fixpoint js_ok_q (en : env) (props : list string) (q : prog2) : Prop :=
@@ -120,13 +126,14 @@ Fixpoint js_ok_q (en : env) (props : list string) (q : prog2) : Prop :=
   | QIfE c a eb r => js_ok en c /\ eb <> QNil /\ js_ok_q en props a /\ js_ok_q en props eb /\ js_ok_q en props r
   | QWhile c a r => js_ok en c /\ js_ok_q en props a /\ js_ok_q en props r
   | QFor down v lo hi a r => js_ok en lo /\ js_ok en (for_cond down v hi) /\ js_ok_q en props a /\ js_ok_q en props r
+  | QExit _ r => js_ok_q en props r
   end.
 
 Theorem for_js fm en props : forall q, js_ok_q en props q -> forall pc ind,
   js_of (final en props pc q) ind fm = pp_js_q fm en props ind q.
 Proof.
   unfold final, js_of.
-  induction q as [|s r IH|c a IHa r IHr|c a IHa eb IHe r IHr|c a IHa r IHr|down v lo hi a IHa r IHr]; intros Hok pc ind.
+  induction q as [|s r IH|c a IHa r IHr|c a IHa eb IHe r IHr|c a IHa r IHr|down v lo hi a IHa r IHr|xoff r IH]; intros Hok pc ind.
   - reflexivity.
   - destruct Hok as [Hs Hr]. cbn [final_k map concat_all pp_js_q]. rewrite (js_stmt_line fm en props s Hs pc ind), (IH Hr). reflexivity.
   - destruct Hok as (Hc & Ha & Hr). cbn [final_k map concat_all pp_js_q gen_js].
@@ -149,5 +156,6 @@ Proof.
     rewrite (IHa Ha), (IHr Hr).
     unfold var_name. destruct down; cbn [String.eqb];
       repeat rewrite <- sappend_assoc; rewrite ends_with_brace; repeat rewrite sappend_assoc; reflexivity.
+  - cbn [final_k map concat_all pp_js_q js_ok_q] in *. rewrite (IH Hok). reflexivity.
 Qed.
 Print Assumptions for_js.
